@@ -819,6 +819,46 @@ private:"""),
     convex(convexity::yes);"""),
     dict(property="C20", name="histogram-ctor-does-not-sort-thresholds", rule="R-C20-5", file="include/nano/core/histogram.h", tu="src/core/histogram.cpp",
          old="        std::sort(std::begin(m_thresholds), std::end(m_thresholds));\n\n        update(begin, end);", new="        update(begin, end);"),
+    # ---- C10
+    dict(property="C10", name="accumulator-r1-sign", rule="R-C10-1", file="include/nano/wlearner/accumulator.h", tu="src/wlearner/accumulator.cpp",
+         old="        r1(bin) -= vgrad;", new="        r1(bin) += vgrad;"),
+    dict(property="C10", name="stump-score-missing-factor-2", rule="R-C10-1", file="src/wlearner/stump.cpp",
+         old="    return (r2 + outputs.square() * r0 - 2 * outputs * r1).sum();", new="    return (r2 + outputs.square() * r0 - outputs * r1).sum();"),
+    dict(property="C10", name="stump-output-pos-uses-total-count", rule="R-C10-1", file="src/wlearner/stump.cpp",
+         old="    auto output_pos() const { return r1_pos() / x0_pos(); }", new="    auto output_pos() const { return r1_pos() / m_acc_sum.x0(); }"),
+    dict(property="C10", name="hinge-beta-denominator-sign", rule="R-C10-1", file="src/wlearner/hinge.cpp",
+         old="    return (rx - r1 * threshold) / (x2 + x0 * threshold * threshold - 2 * x1 * threshold);", new="    return (rx - r1 * threshold) / (x2 + x0 * threshold * threshold + 2 * x1 * threshold);"),
+    dict(property="C10", name="affine-bias-numerator", rule="R-C10-1", file="src/wlearner/affine.cpp",
+         old="        return (r1(bin_affine) * x2(bin_affine) - rx(bin_affine) * x1(bin_affine)) /", new="        return (r1(bin_affine) * x2(bin_affine) - rx(bin_affine) * x0(bin_affine)) /"),
+    dict(property="C10", name="table-coefficient-unnormalised", rule="R-C10-1", file="src/wlearner/table.cpp",
+         old="                m_hash2tables(bin)  = bin;\n                m_tables.array(bin) = r1(bin) / x0(bin);", new="                m_hash2tables(bin)  = bin;\n                m_tables.array(bin) = r1(bin) / std::max(1.0, x0(bin) - 1.0);"),
+    dict(property="C10", name="stump-threshold-not-updated", rule="R-C10-2", file="src/wlearner/stump.cpp",
+         old="                                  cache.m_threshold       = 0.5 * (ivalue1.first + ivalue2.first);\n", new=""),
+    dict(property="C10", name="hinge-right-keeps-left-type", rule="R-C10-2", file="src/wlearner/hinge.cpp",
+         old="                                  cache.m_hinge           = hinge_type::right;\n", new=""),
+    dict(property="C10", name="stump-commit-forgets-threshold", rule="R-C10-2", file="src/wlearner/stump.cpp",
+         old="        set(best.m_feature, best.m_tables);\n        m_threshold = best.m_threshold;", new="        set(best.m_feature, best.m_tables);"),
+    dict(property="C10", name="stump-predict-le-threshold", rule="R-C10-3", file="src/wlearner/stump.cpp",
+         old="{ outputs.vector(i) += value < m_threshold ? lo : hi; });", new="{ outputs.vector(i) += value <= m_threshold ? lo : hi; });"),
+    dict(property="C10", name="hinge-split-right-strict", rule="R-C10-3", file="src/wlearner/hinge.cpp",
+         old="                        (m_hinge == hinge_type::right && value >= m_threshold))", new="                        (m_hinge == hinge_type::right && value > m_threshold))"),
+    dict(property="C10", name="hinge-intercept-sign", rule="R-C10-3", file="src/wlearner/hinge.cpp",
+         old="""                                  cache.m_tables.array(0) = cache.beta_pos(threshold);
+                                  cache.m_tables.array(1) = -threshold * cache.m_tables.array(0);""",
+         new="""                                  cache.m_tables.array(0) = cache.beta_pos(threshold);
+                                  cache.m_tables.array(1) = threshold * cache.m_tables.array(0);"""),
+    dict(property="C10", name="affine-predict-overwrites", rule="R-C10-4", file="src/wlearner/affine.cpp",
+         old="{ outputs.vector(i) += w * value + b; });", new="{ outputs.vector(i) = w * value + b; });"),
+    dict(property="C10", name="loop-sclass-accepts-missing", rule="R-C10-5", file="include/nano/wlearner/util.h", tu="src/wlearner/table.cpp",
+         old="                          if (const auto value = fvalues(i); value >= 0)", new="                          if (const auto value = fvalues(i); value >= -1)"),
+    dict(property="C10", name="scale-skips-first-table", rule="R-C10-6", file="src/wlearner/util.cpp",
+         old="    for (tensor_size_t i = 0; i < tables.size<0>(); ++i)\n    {\n        tables.array(i) *=", new="    for (tensor_size_t i = 1; i < tables.size<0>(); ++i)\n    {\n        tables.array(i) *="),
+    dict(property="C10", name="kbest-hashes-in-score-order", rule="R-C10-7", file="src/wlearner/table.cpp",
+         old="                std::sort(std::begin(kbins), std::end(kbins));\n", new=""),
+    dict(property="C10", name="table-merge-ignores-hash2tables", rule="R-C10-8", file="src/wlearner/table.cpp",
+         old="        if (hashes() == pother->hashes() && hash2tables() == pother->hash2tables())", new="        if (hashes() == pother->hashes())"),
+    dict(property="C10", name="merge-ignores-feature", rule="R-C10-8", file="src/wlearner/single.cpp",
+         old="    if (m_feature == feature && m_tables.dims() == tables.dims())", new="    if (m_tables.dims() == tables.dims())"),
     # ---- C18
     dict(property="C18", name="tune-warm-start-from-running-batch", rule="R-C18-4", file="src/machine/tune.cpp",
          old="const auto closest_trial = result.closest_trial(params, old_trials);", new="const auto closest_trial = result.closest_trial(params, old_trials + trial);"),
@@ -1147,4 +1187,18 @@ BENIGN = [
          old="    mutable tensor_size_t m_gcalls{0};", new="    mutable tensor_size_t m_gcalls{0};\n    mutable tensor_size_t m_hcalls{0};"),
     dict(property="C18", name="gboost-evaluate-range-hoisted", file="src/gboost/util.cpp",
          old="            loss.value(targets, outputs.slice(range), values.tensor(1).slice(range));", new="            auto vslice = values.tensor(1).slice(range);\n            loss.value(targets, outputs.slice(range), vslice);"),
+    dict(property="C10", name="stump-score-expanded", file="src/wlearner/stump.cpp",
+         old="    return (r2 + outputs.square() * r0 - 2 * outputs * r1).sum();", new="    return (r2 - 2 * outputs * r1 + r0 * outputs * outputs).sum();"),
+    dict(property="C10", name="table-merge-conditions-swapped", file="src/wlearner/table.cpp",
+         old="        if (hashes() == pother->hashes() && hash2tables() == pother->hash2tables())", new="        if (hash2tables() == pother->hash2tables() && hashes() == pother->hashes())"),
+    dict(property="C10", name="affine-w-rewritten", file="src/wlearner/affine.cpp",
+         old="""        return (rx(bin_affine) * x0(bin_affine) - r1(bin_affine) * x1(bin_affine)) /
+               (x2(bin_affine) * x0(bin_affine) - x1(bin_affine) * x1(bin_affine));
+    }
+
+    auto b() const""", new="""        return (r1(bin_affine) * x1(bin_affine) - rx(bin_affine) * x0(bin_affine)) /
+               (x1(bin_affine) * x1(bin_affine) - x2(bin_affine) * x0(bin_affine));
+    }
+
+    auto b() const"""),
 ]
